@@ -7,7 +7,7 @@
 (***************************************************************************)
 EXTENDS Naturals, Sequences, FiniteSets, TLC, Json, Fs, Worlds
 
-CONSTANTS Mode,      \* "c01" | "c02" | "c03" | "c09"
+CONSTANTS Mode,      \* "c01" | "c02" | "c03" | "c09" | "router"
           K          \* exhaustive bound (segments for c01; specs per header for c03)
 
 VARIABLE case
@@ -128,11 +128,25 @@ C09Cases(u) ==
            : W \in {MixWorld(21, FALSE), FlatWorld(23)}}
 
 -----------------------------------------------------------------------------
+\* Router: reserved names, their spellings with query / in a sub-directory / in upper case, unknown paths and the
+\* form-get endpoint x nine methods, on every world incl. the one that holds its own copy of each asset
+RouterTargets == {<<<<>>, "">>, <<<<>>, "?x=1">>, <<<<"">>, "">>, <<<<"index.html">>, "">>,
+                  <<<<"style.css">>, "">>, <<<<"style.css">>, "?v=1">>, <<<<"script.js">>, "">>, <<<<"favicon.svg">>, "">>,
+                  <<<<"sub", "style.css">>, "">>, <<<<"sub", "favicon.svg">>, "">>, <<<<"STYLE.CSS">>, "">>, <<<<"", "style.css">>, "">>,
+                  <<<<"404.html">>, "">>, <<<<"nx">>, "">>, <<<<"nx", "deeper.txt">>, "?q">>,
+                  <<<<"form-get-method">>, "">>, <<<<"form-get-method">>, "?k=v&k2=v2">>, <<<<"form-get-method", "x">>, "">>}
+RouterMethods == {"GET", "HEAD", "OPTIONS", "POST", "PUT", "DELETE", "PATCH", "TRACE", "CONNECT"}
+RouterCases(u) ==
+    {Req(W.id, "prod", m, "/", t[1], t[2], "", NoRange, org) :
+        W \in RouterWorlds, m \in RouterMethods, t \in RouterTargets, org \in {"", "https://a.example"}}
+
 Cases == CASE Mode = "c02" -> C02Cases(0)
+           [] Mode = "router" -> RouterCases(0)
            [] Mode = "c03" -> C03Cases(0)
            [] Mode = "c09" -> C09Cases(0)
 
 UsedWorlds == CASE Mode = "c01" -> C01Worlds [] Mode = "c02" -> C02Worlds [] Mode = "c03" -> {RangeWorld}
+                [] Mode = "router" -> RouterWorlds
                 [] Mode = "c09" -> {MixWorld(21, FALSE), FlatWorld(23)}
 
 ASSUME \A W \in UsedWorlds : WorldOK(W) /\ PrintT(<<"WORLD", ToJson(W)>>)
